@@ -36,6 +36,8 @@ var solvers = []solverSpec{
 	{"z3-4.8.12", func(f string, t int) []string { return []string{"z3", "-smt2", fmt.Sprintf("-T:%d", t), f} }},
 }
 
+func ctxBackground() context.Context { return context.Background() }
+
 func firstLine(s string) string {
 	for _, l := range strings.Split(s, "\n") {
 		l = strings.TrimSpace(l)
